@@ -141,7 +141,7 @@ def main():
         consts = (f"  NA = {na}\n  NW = 3\n  NF = 6\n  Alphabet <- Alpha6a\n  Ranges <- {rng_}\n  NSet <- NSetA\n"
                   f"  MaxIts <- MaxItsA\n  TdMasks <- AllMasks\n  InitSel <- InitAll\n  SThr <- SThrHalf\n")
         rp = hvsrobj.Replayer(run, h, graph, ALPHA6[:6], na, 3, 6, consts, focus={"TdReject", "Init"})
-        rp.replay(hvsrobj.Instance(6, "N", "N"), trans_filter=lambda a: a["op"] != "Fdwra")
+        rp.replay(hvsrobj.Instance(6, "N", "N"), trans_filter=lambda a, t: a["op"] != "Fdwra")
         rp.validate_pending()
         run.notes[f"replay_NA{na}"] = rp.stats
     return run.finish(
